@@ -387,7 +387,7 @@ class ClassObject(Object, Callable):
         # a base may evaluate to anything (a module, an instance, a value
         # merged from several branches): only classes contribute attributes
         return [b for b in (self.ctx.evaluate(r) for r in self.scope._bases)  # type: ignore[misc]
-                if isinstance(b, Callable) and hasattr(b, '_attrs')]
+                if isinstance(b, Callable) and hasattr(type(b), '_attrs')]
 
     def _linearise(self, path):
         # type: (list[object]) -> list[tuple[object, Attributes]]
@@ -476,10 +476,17 @@ class InstanceValue(Object):
         # attributes assigned through self in the methods of the class and,
         # below them, of its bases (an earlier base first)
         attrs = {}  # type: Attributes
-        for b in reversed(self.cls.bases):
-            o = b.call(self.ctx)
-            if o:
-                attrs.update(getattr(o, '_assigned_attrs', {}))
+        if getattr(self.cls, '_collecting', False):
+            # the class is (through a call, say) among its own bases
+            return attrs
+        self.cls._collecting = True  # type: ignore[attr-defined]
+        try:
+            for b in reversed(self.cls.bases):
+                o = b.call(self.ctx)
+                if o:
+                    attrs.update(getattr(o, '_assigned_attrs', {}))
+        finally:
+            self.cls._collecting = False  # type: ignore[attr-defined]
         attrs.update(self.cls.scope.top.assigns(self.ctx).get(self, {}))
         return attrs
 
